@@ -822,30 +822,35 @@ def loops(tier, seed):
     return res
 
 
-def world_tour(tier, seed):
+def world_tour(tier, seed, features=()):
     """Spec -> code for C13: every transition of the two-world model (clone, clone_from, drop,
     diverging creates/destroys) replayed; both worlds compared with the model after every step."""
     import tour as T
-    key = key_of("world_tour", repo_hash(), verif_hash(), tier)
+    events = "events" in features
+    key = key_of("world_tour", repo_hash(), verif_hash(), tier, features)
     c = cache_get("world_tour", key)
     if c:
         c["cached"] = True
         return c
     t0 = time.time()
-    binp = build_harness((), False)
+    binp = build_harness(tuple(features), False)
     if tier == "quick":
         consts = dict(MaxCap=6, MaxSlotVer=3, MaxArchVer=4, InitCaps="{0, 2}", MaxOps=6, MaxLen=3)
         caps, archs = [0, 2], [1]
     else:
-        consts = dict(MaxCap=6, MaxSlotVer=3, MaxArchVer=4, InitCaps="{0, 1, 2}", MaxOps=8, MaxLen=3)
+        consts = dict(MaxCap=6, MaxSlotVer=3, MaxArchVer=4, InitCaps="{0, 1, 2}", MaxOps=7 if events else 8, MaxLen=3)
         caps, archs = [0, 1, 2], [0, 1, 2, 3]
+    # with the events feature the model carries the created / destroyed logs and clear_events
+    consts["Events"] = "TRUE" if events else "FALSE"
     edges_all, st = T.export_world_edges(consts)
     edges = [e for e in edges_all if T.world_real_edge(e)]
-    paths, unreachable = T.plan_world_paths(edges, caps)
+    paths, unreachable = T.plan_world_paths(edges, caps, events=events)
     covered = len({ei for p in paths for ei in p})
-    def one(a):
-        lines, expect = T.render_world(edges, paths, a)
-        sfile = os.path.join(_trace_dir(), "wtour-%s-%d.txt" % (key[:8], a))
+    nchunk = 4 if len(archs) == 1 else 1     # one archetype: split the paths so that four replays run side by side
+    def one(ac):
+        a, ci = ac
+        lines, expect = T.render_world(edges, paths[ci::nchunk], a)
+        sfile = os.path.join(_trace_dir(), "wtour-%s-%d-%d.txt" % (key[:8], a, ci))
         with open(sfile, "w") as f:
             f.write("\n".join(lines) + "\n")
         trace = sfile + ".ndjson"
@@ -854,21 +859,21 @@ def world_tour(tier, seed):
             with open(trace, "a") as f:
                 f.write(json.dumps({"op": "crash", "phase": "process", "during": "world tour", "signal": -rc if rc < 0 else rc}) + "\n")
         viol, tst = validate_trace(trace, timeout=6000)
-        matched, drift, first = T.compare_world(trace, expect, a)
+        matched, drift, first = T.compare_world(trace, expect, a, events=events)
         n, ops = _count_ops(trace)
         res = {"a": a, "events": n, "ops": ops, "tlc": tst, "matched": matched, "drift": drift, "first_drift": first,
-               "violations": _collect(trace, viol, {"engine": "world_tour", "archetype": a, "script": sfile}),
-               "samples": [{"script_head": lines[:14]}] if a == archs[0] else []}
+               "violations": _collect(trace, viol, {"engine": "world_tour" + ("-events" if events else ""), "archetype": a, "script": sfile}),
+               "samples": [{"script_head": lines[:14]}] if (a == archs[0] and ci == 0) else []}
         if not viol:
             os.remove(trace)
             os.remove(sfile)
         return res
     with ThreadPoolExecutor(max_workers=4) as ex:
-        parts = list(ex.map(one, archs))
+        parts = list(ex.map(one, [(a, ci) for a in archs for ci in range(nchunk)]))
     drift = sum(p["drift"] for p in parts)
     if drift:
         log("DRIFT (two-world model): %d steps differ (not a violation): %s" % (drift, json.dumps([p["first_drift"] for p in parts if p["first_drift"]][:1])[:700]))
-    res = {"engine": "world_tour", "tier": tier, "model": consts, "model_states": st.get("distinct", 0),
+    res = {"engine": "world_tour" + ("-events" if events else ""), "tier": tier, "model": consts, "model_states": st.get("distinct", 0),
            "edges_exported": len(edges_all), "edges_real": len(edges), "edges_covered": covered, "edges_unreachable": unreachable,
            "paths": len(paths), "archetypes": archs, "traces": len(paths) * len(archs), "events": sum(p["events"] for p in parts),
            "clone_steps": sum(p["ops"].get("clone", 0) for p in parts),
